@@ -47,18 +47,22 @@ static void assert_coeffs(const UIntPoly &p, const Vec &e, const char *msg)
             deg = (int)i;
     verif_assert(p.get_degree() == (deg < 0 ? 0 : deg), "degree is the index of the leading non-zero coefficient");
 }
-extern "C" void harness_c21_mul()
+static void mul_body()
 {
     RCP<const Symbol> x = symbol("x");
-    unsigned na = 1 + (unsigned)verif_choice("na", verif_param("nmax", 3)), nb = 1 + (unsigned)verif_choice("nb", verif_param("nmax", 3));
+    unsigned nmin = (unsigned)verif_param("nmin", 1), nmax = (unsigned)verif_param("nmax", 3);
+    unsigned na = nmin + (unsigned)verif_choice("na", nmax - nmin + 1), nb = nmin + (unsigned)verif_choice("nb", nmax - nmin + 1);
     long B = verif_param("B", 7);
-    long lo = verif_param("nonneg", 0) ? 0 : -B;
+    long lo = verif_param("lo", -1000000) != -1000000 ? verif_param("lo", 0) : (verif_param("nonneg", 0) ? 0 : -B);
     Vec a = sym_vec("a", na, lo, B), b = sym_vec("b", nb, lo, B);
     RCP<const UIntPoly> p = UIntPoly::from_vec(x, a), q = UIntPoly::from_vec(x, b);
     RCP<const UIntPoly> r = mul_upoly(*p, *q);
     assert_coeffs(*r, conv(a, b), "product coefficient equals the schoolbook convolution");
     VERIF_END();
 }
+extern "C" void harness_c21_mul() { mul_body(); }
+// the digit-width boundary of the Kronecker substitution: three-term operands with coefficients near the largest value
+extern "C" void harness_c21_mul_edge() { mul_body(); }
 extern "C" void harness_c21_linear()
 {
     RCP<const Symbol> x = symbol("x");
